@@ -593,9 +593,15 @@ func (g *bridgeGen) plan(mode string) (*BlockPlan, error) {
 		}
 	}
 
-	if rare(5) && len(g.keys) > 1 { // a deposit to the script of some other key the harness knows: an older relayer key, or one whose
+	if rare(4) && len(g.keys) > 0 { // a deposit to the script of some other key the harness knows: an older relayer key, or one whose
 		// registration failed / has not happened (never a relayer key on the committed state)
-		if d := g.ownScriptV1Deposit(g.keys[r.Intn(len(g.keys))], g.evms[r.Intn(len(g.evms))]); d != nil {
+		k := g.keys[r.Intn(len(g.keys))]
+		if rare(2) { // a key nobody has proposed (yet)
+			g.nkey++
+			k = sim.NewBtcKey(int64(g.nkey)*977+r.Int63n(1<<40), g.nkey, false)
+			g.keys = append(g.keys, k)
+		}
+		if d := g.ownScriptV1Deposit(k, g.evms[r.Intn(len(g.evms))]); d != nil {
 			dd := d
 			g.addPending(d.raw, func(b *btcBlock, pos int) { dd.blk, dd.pos, dd.mined = b.h, pos, true })
 			g.deps = append(g.deps, d)
